@@ -53,6 +53,55 @@ pub fn check(sc: &Scenario, out: &RunOutput) -> OracleResult {
             res.violate(P, "exceeds-link-mtu", t, format!("node {} (link MTU {}) emitted a datagram of IP size {} ({})", n, link, e.ip_size, e.pkt.as_ref().map(|p| p.short()).unwrap_or_default()));
         }
     }
+    // (1') a probe is given up only when the retransmission timer expires; an acknowledgement of
+    // new data restarts that timer. So the poll that handles such an acknowledgement cannot be
+    // the one that declares the probe failed (seen as the search's upper bound dropping between
+    // two end-of-poll snapshots) - unless the send itself was refused as too big.
+    {
+        use crate::hist::Ev;
+        use librqbit_utp::verif::ProbeEvent;
+        type K = (std::net::SocketAddr, std::net::SocketAddr, u16);
+        let mut prev: HashMap<K, (u16, u16)> = HashMap::new(); // key -> (max_ss, last_sent_seq_nr)
+        let mut max_ack: HashMap<(std::net::SocketAddr, std::net::SocketAddr), u16> = HashMap::new(); // (from, to) -> highest ack seen
+        // new-data ACKs delivered since the connection's previous snapshot: (to, from) -> instants
+        let mut fresh_acks: HashMap<(std::net::SocketAddr, std::net::SocketAddr), Vec<u64>> = HashMap::new();
+        let mut emsgsize_at: HashMap<std::net::SocketAddr, u64> = HashMap::new();
+        for (t, ev) in &h.evs {
+            match ev {
+                Ev::Deliver(d) if !d.corrupted && d.to_real => {
+                    if let Some(p) = &d.pkt {
+                        if p.typ != codec::ST_SYN {
+                            let e = max_ack.entry((d.src, d.dst));
+                            let newer = match &e {
+                                std::collections::hash_map::Entry::Occupied(o) => crate::util::seq_diff(p.ack, *o.get()) > 0,
+                                std::collections::hash_map::Entry::Vacant(_) => false,
+                            };
+                            let slot = e.or_insert(p.ack);
+                            if newer {
+                                *slot = p.ack;
+                                fresh_acks.entry((d.dst, d.src)).or_default().push(*t);
+                            }
+                        }
+                    }
+                }
+                Ev::SendFail { src, kind, .. } if *kind == "EMSGSIZE" => {
+                    emsgsize_at.insert(*src, *t);
+                }
+                Ev::Probe(ProbeEvent::ConnPoll(sn)) => {
+                    let k: K = (sn.key.local, sn.key.remote, sn.key.conn_id_send);
+                    let acks = fresh_acks.remove(&(sn.key.local, sn.key.remote)).unwrap_or_default();
+                    if let Some((pm, pl)) = prev.get(&k) {
+                        let gave_up = sn.max_ss < *pm;
+                        if gave_up && acks.iter().any(|ta| *ta == *t) && emsgsize_at.get(&sn.key.local) != Some(t) && sn.finished.is_none() && sc.nodes.len() == 2 {
+                            res.violate(P, "probe-given-up-in-the-poll-that-restarted-the-timer", *t, format!("{} -> {}: the largest segment size dropped from {} to {} (send position {} -> {}: an MTU probe was declared lost) in the poll that handled an acknowledgement of new data delivered at this instant; that acknowledgement restarts the retransmission timer, whose expiry is the only sign of a lost probe", sn.key.local, sn.key.remote, pm, sn.max_ss, pl, sn.last_sent_seq_nr));
+                        }
+                    }
+                    prev.insert(k, (sn.max_ss, sn.last_sent_seq_nr));
+                }
+                _ => {}
+            }
+        }
+    }
     // (2) probe discipline per real endpoint
     for v in endpoint_views(h, &ct) {
         let Some(n) = node_of(sc, v.me) else { continue };
